@@ -381,6 +381,28 @@ def run_shard(shard, tier, seed):
                         if not expect_state(c, "update_from_nplike", b, m, feat, "(after mutating the source)"):
                             continue
                     c.ok("update_from_nplike")
+                # sources that ARE the destination bytes, seen in another item order: a typed view of the buffer itself at
+                # the destination, reversed along one axis (what `obj.field = obj.field.to_nplike()[::-1]` hands over)
+                if cnt > 1:
+                    for vname, pick in [("own-view-reversed", lambda w: w[::-1])] + ([("own-view-columns-reversed", lambda w: w[:, ::-1])] if len(shape) == 2 and shape[1] > 1 else []):
+                        b, m = mk(kind, cap, salt)
+                        feat = dict(offset=off, nbytes=n, dtype=dt, layout=vname, ndim=len(shape))
+                        try:
+                            w = b.to_nplike(off, dt, shape)
+                            src = pick(w)
+                        except Exception as e:
+                            c.bad("to_nplike", "raises:" + common.exc_failure(e), repr(e), **feat)
+                            continue
+                        snap = np.ascontiguousarray(src).tobytes()
+                        if snap == bytes(m[off : off + n]):
+                            continue  # (palindromic bytes: nothing to observe)
+                        okc, _ = call(c, "update_from_nplike", feat, lambda: b.update_from_nplike(off, d, src))
+                        n_cases += 1
+                        if not okc:
+                            continue
+                        m[off : off + n] = snap
+                        if expect_state(c, "update_from_nplike", b, m, feat):
+                            c.ok("update_from_nplike")
             # scalar helpers
             import xobjects as xo
 
